@@ -553,6 +553,47 @@ theorem C05_pop_miss_out_of_range (cls : Cls) (kvs : List (Str × Val)) (lead : 
     (renderSp_noQ lead steps hp (by rintro rfl; rw [stepsMiss_nil] at hmiss; cases hmiss))
     (N0.C01.C01_out_of_range_miss _ (Or.inl ⟨cls, kvs, rfl⟩) lead steps d hp hmiss fuel hf).1
 
+/-- **C05 (delete of a missing path: index out of range).**  Same paths: `delete` raises IndexError (`del parent_node[i]` on
+the list), with and without `recursively`, tree unchanged. -/
+theorem C05_delete_miss_out_of_range (cls : Cls) (kvs : List (Str × Val)) (lead : Lead) (steps : List StepSp)
+    (r : Bool) (hp : PlainSteps steps) (hmiss : stepsMiss (.dict cls kvs) steps = true)
+    (fuel : Nat) (hf : fuel ≥ 2 * steps.length) :
+    delete fuel (.dict cls kvs) (renderSp lead steps) r = (.dict cls kvs, .error .IndexError) :=
+  delete_out_of_range fuel cls kvs lead steps r hp hmiss hf
+
+/-- **C05 (missing paths below the canonical path of a node).**  `slash ++ renderPos p` is the path `xpath()` gives the node at
+`p` (C01); followed by `/k`: when the node is a dict without the key `k`, item access raises IndexError, `pop` returns the
+default, `delete` raises KeyError; when the node is a scalar, item access and `delete` raise IndexError, `pop` returns the
+default; the tree is unchanged every time. -/
+theorem C05_miss_canonical (cls : Cls) (kvs : List (Str × Val)) (p : Pos) (k : Str) (c d : Val) (r : Bool)
+    (hp : PlainPos p) (hk : PlainKey k) (hget : getAt (.dict cls kvs) p = some c)
+    (fuel : Nat) (hf : fuel ≥ 2 * p.length + 1) :
+    let t := Val.dict cls kvs
+    let xp := slash ++ renderPos p ++ '/' :: k
+    ((∃ cls' kvs', c = .dict cls' kvs' ∧ lookup k kvs' = Option.none) →
+      getItem fuel t xp = (t, .error .IndexError) ∧ pop fuel t xp d r = .ok (t, d) ∧
+      delete fuel t xp r = (t, .error .KeyError)) ∧
+    (isList c = false ∧ isDict c = false →
+      getItem fuel t xp = (t, .error .IndexError) ∧ pop fuel t xp d r = .ok (t, d) ∧
+      delete fuel t xp r = (t, .error .IndexError)) := by
+  intro t xp
+  have hxp : renderSp .two (canonSteps p ++ .key k :: []) = xp := canon_path cls kvs p c k hget
+  have hps : PlainSteps (canonSteps p ++ .key k :: []) :=
+    (plainSteps_append _ _).2 ⟨plainSteps_canon p hp, hk, trivial⟩
+  have hsg := stepsGet_canon p _ c hget
+  have hf' : fuel ≥ 2 * (canonSteps p).length + 1 := by rw [canonSteps_length]; exact hf
+  constructor
+  · rintro ⟨cls', kvs', rfl, hl⟩
+    have h1 := C05_pop_miss_unknown_key cls kvs .two (canonSteps p) [] k cls' kvs' d r hps hsg hl (Or.inl (by decide)) fuel hf'
+    have h2 := C05_delete_miss_unknown_key cls kvs .two (canonSteps p) [] k cls' kvs' r hps hsg hl (Or.inl (by decide)) fuel hf'
+    rw [hxp] at h1 h2
+    exact ⟨h1.1, h1.2.1, h2⟩
+  · intro hleaf
+    have h1 := C05_pop_miss_below_leaf cls kvs .two (canonSteps p) [] k c d r hps hsg hleaf fuel hf'
+    have h2 := C05_delete_miss_below_leaf cls kvs .two (canonSteps p) [] k c r hps hsg hleaf fuel hf'
+    rw [hxp] at h1 h2
+    exact ⟨h1.1, h1.2.1, h2⟩
+
 /-! Non-vacuity: `exHidden` = `{a: 1, o: {p: {q: 1}}, h: [1, {x: 1}, {}]}`.  Unknown key below `h[-2]` written `//h/[last()-1]/zz[0]/y`
 (the miss carries an index and a further step); a name step below the leaf `o/p/q`; the canonical path of `xpath()` is a member of
 the family; the model evaluates to what the theorems say. -/
@@ -578,5 +619,18 @@ example : (getItem 40 exHidden ['o', '/', 'p', '/', 'q', '/', 'z']) = (exHidden,
 example : pop 40 exHidden ['h', '[', '3', ']', '/', 'x'] (.str ['D']) false = .ok (exHidden, .str ['D']) :=
   C05_pop_miss_out_of_range .n0 _ .rel [.key ['h'], .idx (.lit 3) false, .key ['x']] (.str ['D']) false
     ⟨pk 'h', pk 'x', trivial⟩ (by decide) 40 (by decide)
+
+example : delete 40 exHidden ['/', '/', 'h', '[', '-', '4', ']', '/', 'x'] true = (exHidden, .error .IndexError) :=
+  C05_delete_miss_out_of_range .n0 _ .two [.key ['h'], .idx (.neg 4) false, .key ['x']] true
+    ⟨pk 'h', pk 'x', trivial⟩ (by decide) 40 (by decide)
+
+-- the canonical form: `//h[1]/zz` (unknown key of the dict `h[1]`), `//h[1]/x/zz` (below the leaf `h[1]/x`)
+example : slash ++ renderPos [.key ['h'], .idx 1] ++ '/' :: ['z', 'z'] = ['/', '/', 'h', '[', '1', ']', '/', 'z', 'z'] := by decide
+example : delete 40 exHidden ['/', '/', 'h', '[', '1', ']', '/', 'z', 'z'] false = (exHidden, .error .KeyError) :=
+  ((C05_miss_canonical .n0 _ [.key ['h'], .idx 1] ['z', 'z'] _ Val.none false ⟨pk 'h', trivial⟩ ⟨by decide, by decide, by decide⟩
+    rfl 40 (by decide)).1 ⟨.n0, _, rfl, rfl⟩).2.2
+example : pop 40 exHidden ['/', '/', 'h', '[', '1', ']', '/', 'x', '/', 'z', 'z'] (.int 7) true = .ok (exHidden, .int 7) :=
+  ((C05_miss_canonical .n0 _ [.key ['h'], .idx 1, .key ['x']] ['z', 'z'] _ (.int 7) true ⟨pk 'h', pk 'x', trivial⟩
+    ⟨by decide, by decide, by decide⟩ rfl 40 (by decide)).2 ⟨rfl, rfl⟩).2.1
 
 end N0.C05
